@@ -585,5 +585,47 @@ theorem snapshot_on_returning (w : World) (hw : WF w) (c0 : Client) :
       cases hp'
       rfl
 
+/-! ### a peer that returns holding the very world the host holds (the former host after a hand-over) -/
+
+theorem addAll_nodup : ∀ (us K : List Nat), K.Nodup → (addAll K us).Nodup
+  | [], K, h => by simpa [addAll] using h
+  | u :: us, K, h => by
+    simp only [addAll]
+    by_cases hu : u ∈ K
+    · simp only [hu, if_true]; exact addAll_nodup us K h
+    · simp only [hu, if_false]
+      apply addAll_nodup us
+      rw [List.nodup_append]
+      exact ⟨h, by simp, by intro a ha b hb hab; simp at hb; subst hb; subst hab; exact hu ha⟩
+
+/-- a returning peer whose replicas are exactly the host's entities, each once (every peer of a settled session; the former host
+of a hand-over in particular): after the snapshot it still holds each of them exactly once — none lost, none duplicated — with
+every value and link the host lists -/
+theorem snapshot_on_agreeing (w : World) (hw : WF w) (c0 : Client) (hn : c0.ents.Nodup)
+    (hsame : ∀ u, u ∈ c0.ents ↔ u ∈ uuids w) :
+    let c := applyAll c0 (snapshot w)
+    c.ents = c0.ents ∧ c.ents.Nodup ∧ (∀ u, u ∈ c.ents ↔ u ∈ uuids w) ∧
+    (∀ e ∈ allEnts w, ∀ t v, e.vals.lookup t = some v → getComp c e.uuid t = some v) ∧
+    (∀ e ∈ allEnts w, ∀ p, e.parent = some p → getParent c e.uuid = some p) := by
+  intro c
+  have hr := snapshot_on_returning w hw c0
+  have hsc : Scoped c0.ents (snapshot w) := scoped_mono _ [] _ (by intro x hx; simp at hx) (snapshot_scoped w hw)
+  have he : c.ents = addAll c0.ents (uuids w) := by
+    show (applyAll c0 (snapshot w)).ents = _
+    rw [(applyAll_scoped (snapshot w) c0 hsc).1, spawnIds_snapshot w hw]
+  have hk : ∀ (us K : List Nat), (∀ u ∈ us, u ∈ K) → addAll K us = K := by
+    intro us
+    induction us with
+    | nil => intro K _; rfl
+    | cons u us ih =>
+      intro K h
+      have hu : u ∈ K := h u (by simp)
+      simp only [addAll, hu, if_true]
+      exact ih K (fun x hx => h x (by simp [hx]))
+  have hid : c.ents = c0.ents := by rw [he]; exact hk _ _ (fun u hu => (hsame u).mpr hu)
+  refine ⟨hid, by rw [hid]; exact hn, ?_, hr.2.1, hr.2.2⟩
+  intro u
+  rw [hid]; exact hsame u
+
 end WorldSnap
 end BevySync
